@@ -11,7 +11,7 @@ from ..wrap import WrapSpec, wrap_problems
 from .common import DT, CT, ckey, datatype_classes, only_raises_notimplemented
 
 EXPLANATION = (
-    "Static rules D8.1-D8.5 (DESIGN.md section 5, C08) over every DataType subclass in the model "
+    "Static rules D8.1-D8.6 (DESIGN.md section 5, C08) over every DataType subclass in the model "
     "(module-level classes and the classes produced by the Struct/Array/StructTag/FixedSizeString/n_bytes factories): "
     "T-WRAP containment of the two base wrappers and of every public encode/decode override (all paths, incl. statements "
     "outside the try), the BufferEmptyError pass-through, the exception class hierarchy, the empty/short-read guards of "
@@ -344,3 +344,13 @@ def d8_5(ctx):
                 ctx.check(inside, key, call, "called inside the wrapper's try", "private codec method called outside the wrapper's try")
                 continue
             ctx.violation(key, call, f"private codec method called from {fi.qualname}, bypassing the DataError wrapper")
+
+
+@rule(P, "D8.6", "T-DOM", floor=4)
+def d8_6(ctx):
+    """Too few values for a fixed array (counted in the array's own unit: bools per element for bit-string elements) and a
+    partial last bit-string element raise DataError before anything is encoded - the same obligations as D6.6, owned here for
+    the 'outside the domain -> DataError, never silent' clause."""
+    from .C06 import d6_6
+
+    d6_6(ctx)
